@@ -159,6 +159,22 @@ def parseText (d : Char) (text : List Char) : Except Err (List (List (List Char)
   | .error e => .error e
   | .ok s => .ok (finish s)
 
+/-! ### line splitting as a parameter (which characters end a line is the file object's business) -/
+
+/-- lines of a text under a policy, ends kept; no empty last line -/
+def splitP (inj : Char → List Char → Bool) : List Char → List (List Char)
+  | [] => []
+  | c :: cs =>
+    if inj c cs then [c] :: splitP inj cs
+    else match splitP inj cs with
+      | [] => [[c]]
+      | l :: ls => (c :: l) :: ls
+
+/-- `'\n'` only -/
+def lf : Char → List Char → Bool := fun c _ => c == '\n'
+/-- universal newlines without translation (`newline=''`) -/
+def univ : Char → List Char → Bool := fun c cs => c == '\n' || (c == '\r' && cs.head? != some '\n')
+
 /-! ### a writer (what `csv.writer` with the same dialect produces, up to the choice of which fields to quote) -/
 
 /-- `"` doubled -/
